@@ -163,6 +163,10 @@ pub fn run(args: &[String]) {
     (46.5e-6, 46.5e-6, Apodization::Off),
     (46.5e-6, 20e-6, Apodization::Bartlett(1.)),
     (7e-6, 49e-6, Apodization::Welch(1.)),
+    // odd domain counts whose centre domain (z = 0 exactly) has a window value below 1: the pair order AT the centre is observable
+    (10e-6, 65e-6, Apodization::Interpolate(vec![0.25, 0.5, 0.625, 0.5, 0.25])),
+    (10e-6, 25e-6, Apodization::Interpolate(vec![1., 0.5, 1.])),
+    (8e-6, 82e-6, Apodization::Interpolate(vec![0.125, 0.75, 0.375])),
   ];
   for _ in 0..n {
     let nd = (rng.log_range(1., max_domains as f64)).floor();
